@@ -620,8 +620,8 @@ pub fn run(ctx: &Ctx) -> Report {
     );
     rep.assume("template contents are not part of the serializer's document-order walk (RcDom serializes `children` only)");
     rep.assume("reparent_children is only generated where it cannot create adjacent text nodes (the tree builder re-parents into fresh elements only; the trait does not say whether texts merge)");
-    report_known(ctx, &mut rep, &|v| replay(ctx, v));
-    run_regressions(ctx, &mut rep, &|v| replay(ctx, v));
+    report_known(ctx, &mut rep, &|v| replay(&ctx.strict_clone(), v));
+    run_regressions(ctx, &mut rep, &|v| replay(&ctx.strict_clone(), v));
     let out = run_random(ctx.seed, ctx.tier.pick(200_000, 10_000_000), 1500, decode, check);
     rep.absorb(out);
     for l in [
